@@ -40,6 +40,8 @@ define_ops! {
     sum_v_nh = |s: US| NoHint(s.iter().copied()).sum::<Uint<B, L>>();
     sum_r_nh = |s: US| NoHint(s.iter()).sum::<Uint<B, L>>();
     sum_v_f = |s: US| s.iter().copied().filter(|_| true).sum::<Uint<B, L>>();
+    // a non-fused iterator that answers None once before item k: the sum ends there and the rest stays in the iterator
+    sum_nf = |s: US, k: N| { let mut it = Gap::new(s.iter().copied(), k); let a = it.by_ref().sum::<Uint<B, L>>(); let rest = it.count(); let mut it2 = Gap::new(s.iter(), k); let b = it2.by_ref().sum::<Uint<B, L>>(); (a, rest, b, it2.count()) };
     // both operands are the SAME object
     add_alias = |a: U| &a + &a;
     sub_alias = |a: U| &a - &a;
@@ -60,6 +62,7 @@ define_ops! {
     product_v_nh = |s: US| NoHint(s.iter().copied()).product::<Uint<B, L>>();
     product_r_nh = |s: US| NoHint(s.iter()).product::<Uint<B, L>>();
     product_v_f = |s: US| s.iter().copied().filter(|_| true).product::<Uint<B, L>>();
+    product_nf = |s: US, k: N| { let mut it = Gap::new(s.iter().copied(), k); let a = it.by_ref().product::<Uint<B, L>>(); let rest = it.count(); let mut it2 = Gap::new(s.iter(), k); let b = it2.by_ref().product::<Uint<B, L>>(); (a, rest, b, it2.count()) };
     mul_alias = |a: U| &a * &a;
     // ---- C03
     div_rem = |a: U, b: U| a.div_rem(b);
@@ -290,6 +293,21 @@ fn model(bits: usize, op: Op, args: &[V]) -> Expect {
             } else {
                 is(V::None)
             }
+        }
+        sum_nf | product_nf => {
+            let items = args[0].as_l();
+            let k = (args[1].as_n() as usize).min(items.len());
+            let mut s = if op == sum_nf { BigUint::zero() } else { BigUint::one() };
+            for x in &items[..k] {
+                if op == sum_nf {
+                    s += big(x.limbs());
+                } else {
+                    s *= big(x.limbs());
+                }
+            }
+            // how much of the iterator is consumed is not promised (a product may stop at a zero): only the values are compared
+            let w = wrap(&s, bits);
+            pred(&format!("({w:?}, _, {w:?}, _): the sum / product of the items before the first None, by value and by reference"), move |g| matches!(g, V::T(t) if t.len() == 4 && t[0] == w && t[2] == w)).nt(true)
         }
         product_v | product_r | product_v_nh | product_r_nh | product_v_f => {
             let mut s = BigUint::one();
@@ -693,6 +711,13 @@ fn long_seqs(r: &Runner, what: &str, bits: usize, ops: &'static [Op], product: b
         l.states(1);
         for &op in ops {
             exec(l, bits, op, &[seqs[i].clone()]);
+        }
+        // the same sequence through a non-fused iterator with its gap at every position up to 12 and near the end
+        let n = match &seqs[i] { V::L(v) => v.len(), _ => 0 };
+        if n <= 33 {
+            for k in (0..=n.min(12)).chain(n.saturating_sub(2)..=n) {
+                exec(l, bits, if product { Op::product_nf } else { Op::sum_nf }, &[seqs[i].clone(), V::n(k)]);
+            }
         }
     });
 }
